@@ -129,8 +129,10 @@ func (a *API) onRecordingDeleteSegment(ctx *gin.Context) {
 		return
 	}
 
+	// segments are named by the recorder by using the local time zone,
+	// while the requested date can be expressed with any UTC offset.
 	segmentPath := recordstore.Path{
-		Start: start,
+		Start: start.Local(),
 	}.Encode(pathFormat)
 
 	segmentPath, err = absolutePathInside(commonPath, segmentPath)
